@@ -406,12 +406,37 @@ def is_nonneg(t):
 ASSUMED_GE0 = []      # terms known to be >= 0 in the case under analysis (pushed by compare while it explores a case)
 
 
+def _frame_dims_positive(t):
+    """a frame's data array has at least one row and one column:  shape(<x>.data)[k] - 1 >= 0"""
+    r = t + Term.num(1)
+    a = r.single_atom()
+    if a is not None and a.kind == 'sub' and a.args[1].const() in (0, 1):
+        ba = a.args[0].single_atom()
+        if ba is not None and ba.kind == 'call' and ba.args[0] == 'shape' and len(ba.args[1]) == 1:
+            xa = ba.args[1][0].single_atom()
+            return xa is not None and xa.kind == 'attr' and xa.args[1] == 'data'
+    return False
+
+
+GE0_PATTERNS = [_frame_dims_positive]      # predicates t -> bool: domain facts "t >= 0" (rules may add class invariants)
+
+
 def ge0(t, depth=0):
     """t >= 0 under the sign table and the assumptions of the current case; also decides  r - max(..) and r + min(..)"""
     if is_nonneg(t):
         return True
     if depth > 3:
         return False
+    r1 = t + Term.num(1)
+    a1 = r1.single_atom()
+    if a1 is not None and a1.kind == 'attr' and a1.args[1] in ('fchans', 'tchans', 'num_chans', 'num_branches', 'num_taps'):
+        return True            # a count of channels / samples is a positive integer: n - 1 >= 0
+    for pred in GE0_PATTERNS:
+        try:
+            if pred(t):
+                return True
+        except Exception:
+            pass
     for d in ASSUMED_GE0:
         if is_nonneg(t - d):
             return True
@@ -503,8 +528,12 @@ def mk_cmp(op, a, b):
                 return TRUE if neg else FALSE
             if is_positive(-d):
                 return FALSE if neg else TRUE
-            if is_nonneg(d):
+            if is_nonneg(d) or ge0(d):
                 return TRUE if neg else FALSE         # d >= 0 always: d < 0 never holds
+            if is_integer(d) and d.p.get((), 0) == -1 and len(d.p) > 1:
+                # integers:  p - 1 < 0  <=>  p <= 0  <=>  not (-p < 0)   (one spelling for `n < 1` and `not n > 0`)
+                r = mk_cmp('<', -(d + Term.num(1)), Term.num(0))
+                return r if neg else mk_not(r)
             if is_nonneg(-d) and is_integer(d):
                 # d <= 0 always (e.g. -len(x)):  d < 0  <=>  d != 0
                 r = mk_not(mk_cmp('==', -d, Term.num(0)))
@@ -1209,6 +1238,12 @@ def mk_sub(base, idx):
                 if a0 is not None and a0 >= 0 and a0.denominator == 1 and idx.single_atom() is not None and \
                         idx.single_atom().kind == 'idx':
                     return mk_sub(at.args[0], sl.args[0] + idx)
+            s2 = idx.single_atom()
+            if sl is not None and sl.kind == 'slice' and _isnone(sl.args[1]) and _isnone(sl.args[2]) and s2 is not None \
+                    and s2.kind == 'slice' and _isnone(s2.args[2]) and s2.args[0].const() == 0 and not _isnone(s2.args[1]) \
+                    and ge0(sl.args[0]) and ge0(s2.args[1]):
+                # (X[a:])[:n] == X[a:a+n]   for a >= 0, n >= 0
+                return mk_sub(at.args[0], mk_slice(sl.args[0], sl.args[0] + s2.args[1], NONE))
             if sl is not None and sl.kind == 'slice' and _isnone(sl.args[2]):
                 # (X[a:b])[i] == X[a + i]   for constants 0 <= a, 0 <= i < b - a
                 a0, b0, i0 = sl.args[0].const(), (None if _isnone(sl.args[1]) else sl.args[1].const()), idx.const()
